@@ -18,7 +18,7 @@ pub struct Ctx {
     pub clone_log: Vec<(u64, u64)>,           // (from serial, new serial)
     // ---- hash plan
     pub hashes: StdMap<u64, u64>,
-    pub hash_rule: u8, // 0 = mix, 1 = const 0, 2 = const max, 3 = call dependent
+    pub hash_rule: u8, // 0 = mix, 1 = const 0, 2 = const max, 3 = call dependent, 4 = call dependent (near)
     pub hash_calls: u64,
     pub hash_panic_key: Option<u64>,   // hashing this key id panics (while armed)
     pub hash_panic_nth: Option<u64>,   // the n-th hash call from now panics
@@ -257,6 +257,9 @@ pub fn plan_hash(id: u64) -> u64 {
             1 => 0,
             2 => u64::MAX,
             3 => mix64(id ^ c.hash_calls.wrapping_mul(0x1234_5678_9ABC_DEF1)),
+            // a different answer on every call, but always tag 0 and one of 8 neighbouring
+            // positions: lookups under a "wrong" hash still find stored elements
+            4 => mix64(id ^ c.hash_calls.wrapping_mul(0x1234_5678_9ABC_DEF1)) & 7,
             _ => match c.hashes.get(&id) {
                 Some(h) => *h,
                 None => mix64(id),
